@@ -448,7 +448,8 @@ Proof.
     replace (length pre + length (rkey (RLen n b)) + length (ref_varint (N.of_nat (length b))) + length b)%nat
       with (length pre + length (renc (RLen n b)))%nat
       by (unfold renc; rewrite app_length; cbn [rpayload rvalue]; rewrite app_length; lia).
-    rewrite Hcs, Hce, (Hsub n ch eq_refl), Hloop. cbn [tdump tnum]. fold b. reflexivity.
+    pose proof (Hsub n ch eq_refl) as Hsb. fold b in Hsb.
+    rewrite Hcs, Hce, Hsb, Hloop. cbn [tdump tnum]. fold b. reflexivity.
 Qed.
 
 Lemma dump_trees : forall fuel conf indent path ts pre steps,
